@@ -72,6 +72,18 @@ THEOREMS = [
     "Scenic.Solid.scaled_normSq_le",
     "Scenic.Solid.fallback_position_bound",
     "Scenic.Solid.fallback_origin_not_bound",
+    # round 4: volume vs surface, volume vs footprint (slab + one-entry cache, all histories), region in region
+    "Scenic.C04.intersectsSurface_correct",
+    "Scenic.C04.slabHistory_covers",
+    "Scenic.C04.intersectsFootprint_correct",
+    "Scenic.C04.containsRegionInner_correct",
+    "Scenic.Solid.intersectsSurface_correct",
+    "Scenic.Solid.approxBound_cache",
+    "Scenic.Solid.approxBound_covers",
+    "Scenic.Solid.footprintSlab_covers",
+    "Scenic.Solid.slabHistory_covers",
+    "Scenic.Solid.intersectsFootprint_correct",
+    "Scenic.Solid.containsRegionInner_correct",
 ]
 SIDE = [
     "Scenic.C04.gen_intersect_sound",
@@ -83,8 +95,11 @@ SIDE = [
     "Scenic.C04.gen_voldist_sound",
     "Scenic.C04.gen_convex_sound",
     "Scenic.C04.gen_fallback_center",
+    "Scenic.C04.gen_surf_sound",
+    "Scenic.C04.gen_slab_sound",
+    "Scenic.C04.gen_inner_sound",
 ]
-MODULES = ["ScenicModel.Props.C04", "ScenicModel.Props.C04Tree", "ScenicModel.Props.C04Planar", "ScenicModel.Props.C04Geo"]
+MODULES = ["ScenicModel.Props.C04", "ScenicModel.Props.C04Tree", "ScenicModel.Props.C04Planar", "ScenicModel.Props.C04Geo", "ScenicModel.Props.C04Surf"]
 
 R = "src/scenic/core/regions.py"
 O = "src/scenic/core/object_types.py"
@@ -114,6 +129,9 @@ FINGERPRINTS = {
     "MeshRegion._boundingPolygonHull": (R, "MeshRegion._boundingPolygonHull"),
     "PolygonalFootprintRegion.containsObject": (R, "PolygonalFootprintRegion.containsObject"),
     "PolygonalFootprintRegion.approxBoundFootprint": (R, "PolygonalFootprintRegion.approxBoundFootprint"),
+    "PolygonalFootprintRegion.boundFootprint": (R, "PolygonalFootprintRegion.boundFootprint"),
+    "MeshVolumeRegion.containsRegionInner": (R, "MeshVolumeRegion.containsRegionInner"),
+    "SurfaceCollisionTrimesh": (R, "SurfaceCollisionTrimesh"),
     "Region.__contains__": (R, "Region.__contains__"),
     "Object.intersects": (O, "Object.intersects"),
     "Object.minimumDistanceTo": (O, "Object.minimumDistanceTo"),
@@ -1898,6 +1916,243 @@ def polyregion_case(ctx, real, rep, found, lean_jobs, verbose=False):
                 found.append(key)
 
 
+# =========================================================================== round 4: volume vs surface / footprint / region in region
+class SurfTrace:
+    """records the collision-manager answer and the point-containment calls of MeshVolumeRegion.intersects(MeshSurfaceRegion)"""
+
+    def __init__(self, real):
+        self.real, self.log = real, []
+
+    def __enter__(self):
+        CM, MV = self.real.trimesh.collision.CollisionManager, self.real.rg.MeshVolumeRegion
+        self.saved = (CM.in_collision_internal, MV.containsPoint)
+        oc, ocp, log = self.saved[0], self.saved[1], self.log
+
+        def in_collision_internal(self_, *a, **k):
+            res = oc(self_, *a, **k)
+            log.append(("collide", bool(res)))
+            return res
+
+        def contains_point(self_, point, *a, **k):
+            res = ocp(self_, point, *a, **k)
+            log.append(("containsPoint", bool(res)))
+            return res
+        CM.in_collision_internal, MV.containsPoint = in_collision_internal, contains_point
+        return self
+
+    def __exit__(self, *exc):
+        CM, MV = self.real.trimesh.collision.CollisionManager, self.real.rg.MeshVolumeRegion
+        CM.in_collision_internal, MV.containsPoint = self.saved
+        return False
+
+
+def _box_spec(rng, half_choices, mode="region", quats=None):
+    return {"shape": "box", "quat": rng.choice(quats or (QUATS_GENERIC + QUATS_YAW[:3])), "pos": rand_pos(rng),
+            "half": [rng.choice(half_choices) for _ in range(3)], "mode": mode}
+
+
+def surface_cases(ctx, real, found, lean_jobs):
+    rng = ctx.rng
+    for i in range(ctx.budget(45, 900)):
+        fam = rng.choice(["gap", "gap", "gap", "surface_inside", "volume_inside", "far"])
+        sa = _box_spec(rng, HALF)
+        sb = _box_spec(rng, HALF)
+        if fam == "gap":
+            sb, _ = place_with_gap(rng, sa, sb)
+        elif fam == "surface_inside":
+            sa["half"] = [Fr(2), Fr(2), Fr(2)]
+            sb["half"] = [rng.choice([Fr(1, 4), Fr(1, 2)]) for _ in range(3)]
+            sb["pos"] = [fr(t) + Fr(rng.randint(-3, 3), 8) for t in sa["pos"]]
+        elif fam == "volume_inside":
+            sb["half"] = [Fr(2), Fr(2), Fr(2)]
+            sa["half"] = [rng.choice([Fr(1, 4), Fr(1, 2)]) for _ in range(3)]
+            sa["pos"] = [fr(t) + Fr(rng.randint(-3, 3), 8) for t in sb["pos"]]
+        else:
+            sb["pos"] = [fr(t) + 9 for t in sa["pos"]]
+        surface_case(ctx, real, {"kind": "surface", "family": fam, "A": spec_json(sa), "B": spec_json(sb)}, found, lean_jobs)
+
+
+def surface_case(ctx, real, rep, found, lean_jobs, verbose=False):
+    """a box volume against the *surface* of a box: model correspondence and oracle"""
+    sa, sb = spec_from_json(rep["A"]), spec_from_json(rep["B"])
+    SA, SB = exact_solid(sa), exact_solid(sb)
+    _, A = real.build(sa)
+    w, l, h = real.dims(sb)
+    S = real.rg.MeshSurfaceRegion(real.trimesh.creation.box((w, l, h)), position=real.vec.Vector(*[float(fr(t)) for t in sb["pos"]]),
+                                  rotation=real.orientation(sb["quat"]))
+    ctx.case(("surface", json.dumps(rep, sort_keys=True)))
+    # the surface mesh must be the boundary of the exact box
+    cs = [tuple(float(t) for t in c) for c in SB[0].corners()]
+    for v in S.mesh.vertices:
+        if min(max(abs(v[k] - c[k]) for k in range(3)) for c in cs) > 1e-9:
+            if report(ctx, "surface-mesh-misplaced", "vertices of a MeshSurfaceRegion are not the corners of the box it was built from", rep):
+                found.append("surface-mesh-misplaced")
+            return
+    with SurfTrace(real) as tr:
+        ans = bool(A.intersects(S))
+    calls = [e[0] for e in tr.log]
+    b, ob = A.mesh.bounds, S.mesh.bounds
+    bb = all(b[0, d] <= ob[1, d] and ob[0, d] <= b[1, d] for d in range(3))
+    col = next((e[1] for e in tr.log if e[0] == "collide"), None)
+    hf = next((e[1] for e in tr.log if e[0] == "containsPoint"), None)
+    want_exit = "p1" if "collide" not in calls else "p2Hit" if "containsPoint" not in calls else "p3"
+    lines = [f"surf {b01(bb)} {b01(c)} {b01(f)}" for c in ([col] if col is not None else [False, True])
+             for f in ([hf] if hf is not None else [False, True])]
+    if verbose:
+        print("volume.intersects(surface) =", ans, " calls:", calls, " bounding boxes overlap:", bb)
+
+    def after(outs, ans=ans, want_exit=want_exit, lines=lines):
+        if any(o != f"{b01(ans)} {want_exit}" for o in outs):
+            ctx.broken("correspondence", "intersectsSurface model vs MeshVolumeRegion.intersects(MeshSurfaceRegion)",
+                       f"{lines}: lean={outs} python={b01(ans)} exit={want_exit}")
+        ctx.hist("surface_exit", want_exit)
+    lean_jobs.append((lines, after))
+    ov, b_in_a, a_in_b = overlap_verdict(SA, SB), contain_verdict(SA, SB), contain_verdict(SB, SA)
+    verdict, certs = "UNDECIDED", []
+    if ov.kind == "NO":
+        verdict, certs = "NO", ov.certs
+    elif b_in_a.kind == "YES":
+        verdict, certs = "YES", b_in_a.certs
+    elif a_in_b.kind == "YES":
+        verdict, certs = "NO", a_in_b.certs          # the volume lies strictly inside the closed surface
+    elif ov.kind == "YES" and a_in_b.kind == "NO":
+        verdict, certs = "YES", ov.certs + a_in_b.certs   # a connected volume with points inside and outside the closed surface
+    ctx.hist("oracle_surface", f"{rep.get('family')}:{verdict}")
+    if verbose:
+        print("oracle:", verdict)
+    if verdict != "UNDECIDED":
+        lean_jobs.append((certs, certificate_job(ctx, "surface " + verdict)))
+        if col and ov.kind == "NO":
+            if report(ctx, "surface-collide-unsound", "the collision manager reports a collision of a volume and a surface that are certainly disjoint", rep):
+                found.append("surface-collide-unsound")
+        if ans != (verdict == "YES"):
+            key = f"surface-intersects-wrong:{want_exit}:" + ("says-disjoint" if not ans else "says-overlap")
+            if report(ctx, key, f"MeshVolumeRegion.intersects(MeshSurfaceRegion) = {ans} but the volume certainly "
+                                  f"{'meets' if verdict == 'YES' else 'does not meet'} the surface", rep):
+                found.append(key)
+
+
+ZS = [Fr(0), Fr(0), Fr(1), Fr(-3), Fr(3), Fr(40), Fr(150), Fr(-150), Fr(400), Fr(149), Fr(101), Fr(-99)]
+
+
+def footslab_cases(ctx, real, found, lean_jobs):
+    """histories of volumes at very different heights against ONE footprint (the slab cache of approxBoundFootprint)"""
+    rng = ctx.rng
+    for i in range(ctx.budget(14, 300)):
+        quat = rng.choice(QUATS_YAW)
+        W, L = Fr(rng.choice([4, 6, 8])), Fr(rng.choice([4, 6, 8]))
+        origin = [Fr(rng.randint(-8, 8), 4), Fr(rng.randint(-8, 8), 4)]
+        vols = []
+        for j in range(rng.choice([2, 3, 4])):
+            sa = _box_spec(rng, [Fr(1, 4), Fr(1, 2), Fr(1), Fr(3, 2)])
+            where = rng.choice(["edge", "edge", "in", "out"])
+            rows = quat_matrix(quat)
+            x = {"edge": W / 2 + Fr(rng.randint(-6, 6), 8), "in": Fr(rng.randint(-4, 4), 8), "out": W / 2 + 5}[where]
+            p = vadd((origin[0], origin[1], Fr(0)), mat_vec(rows, (x, Fr(rng.randint(-4, 4), 4), Fr(0))))
+            sa["pos"] = [p[0], p[1], rng.choice(ZS[:5] if j == 0 else ZS) + Fr(rng.randint(-4, 4), 4)]
+            vols.append(spec_json(sa))
+        rep = {"kind": "footslab", "quat": list(quat), "W": str(W), "L": str(L), "origin": [str(t) for t in origin], "volumes": vols}
+        footslab_case(ctx, real, rep, found, lean_jobs)
+
+
+def footslab_case(ctx, real, rep, found, lean_jobs, verbose=False):
+    shp = real.shapely
+    rows = quat_matrix(tuple(rep["quat"]))
+    u = tuple(tuple(rows[i][k] for i in range(3)) for k in range(3))
+    origin = tuple(Fr(t) for t in rep["origin"])
+    W, L = Fr(rep["W"]), Fr(rep["L"])
+
+    def world(p):
+        return vadd((origin[0], origin[1], Fr(0)), mat_vec(rows, (p[0], p[1], Fr(0))))
+    outer = XBox(world((0, 0)), u, (W / 2, L / 2, TALL))
+    poly = shp.geometry.Polygon([(float(p[0]), float(p[1])) for p in
+                                 [world((sx * W / 2, sy * L / 2)) for sx, sy in ((1, 1), (-1, 1), (-1, -1), (1, -1))]])
+    F = real.rg.PolygonalFootprintRegion(poly)
+    ctx.case(("footslab", json.dumps(rep, sort_keys=True)))
+    for j, vj in enumerate(rep["volumes"]):
+        sa = spec_from_json(vj)
+        SA = exact_solid(sa)
+        _, A = real.build(sa)
+        prev = F._bounded_cache
+        ans = bool(A.intersects(F))
+        cur = F._bounded_cache
+        lo, hi = Fr(float(A.mesh.bounds[0][2])), Fr(float(A.mesh.bounds[1][2]))
+        reused = prev is not None and cur is not None and cur[2] is prev[2]
+        line = "slab " + (f"{Fr(float(prev[0]))} {Fr(float(prev[1]))}" if prev is not None else "none none") + f" {lo} {hi}"
+        ctx.hist("footslab_cache", ("first" if prev is None else "reused" if reused else "rebuilt"))
+        if verbose:
+            print(f"query {j}: z-range [{float(lo)}, {float(hi)}] cache before {prev and prev[:2]} after {cur and cur[:2]} reused={reused} answer={ans}")
+        bad_cover = cur is None or not (cur[0] - cur[1] / 2 <= float(lo) and float(hi) <= cur[0] + cur[1] / 2)
+
+        def after(outs, cur=cur, reused=reused, line=line):
+            try:
+                c, hgt, ru = outs[0].split()
+                ok = (ru == "1") == reused and cur is not None and abs(float(Fr(c)) - cur[0]) <= 1e-9 * (1 + abs(cur[0])) \
+                    and abs(float(Fr(hgt)) - cur[1]) <= 1e-9 * (1 + abs(cur[1]))
+            except Exception:
+                ok = False
+            if not ok:
+                ctx.broken("correspondence", "footprintSlab / approxBound model vs approxBoundFootprint (slab and cache)",
+                           f"{line}: lean={outs} python cache={cur and cur[:2]} reused={reused}")
+        lean_jobs.append(([line], after))
+        if bad_cover:
+            if report(ctx, "footprint-slab-does-not-cover", f"the bounded footprint handed back for a mesh of z-range [{float(lo)}, {float(hi)}] "
+                      f"spans only {cur and (cur[0] - cur[1] / 2, cur[0] + cur[1] / 2)}", rep):
+                found.append("footprint-slab-does-not-cover")
+        v = overlap_verdict(SA, [outer])
+        ctx.hist("oracle_footslab", v.kind)
+        if v.kind != "UNDECIDED":
+            lean_jobs.append((v.certs, certificate_job(ctx, "footslab " + v.kind)))
+            if ans != (v.kind == "YES"):
+                key = "footprint-intersects-wrong:" + ("first" if prev is None else "reused" if reused else "rebuilt") + ":" + ("says-disjoint" if not ans else "says-overlap")
+                if report(ctx, key, f"MeshVolumeRegion.intersects(PolygonalFootprintRegion) = {ans} (query {j} of the history) but the volume certainly "
+                                      f"{'meets' if v.kind == 'YES' else 'does not meet'} the footprint", rep):
+                    found.append(key)
+
+
+def inner_cases(ctx, real, found, lean_jobs):
+    rng = ctx.rng
+    for i in range(ctx.budget(20, 400)):
+        sa = _box_spec(rng, [Fr(1), Fr(3, 2), Fr(2)])
+        sb = _box_spec(rng, [Fr(1, 4), Fr(1, 2), Fr(3, 4)])
+        fam = rng.choice(["inside", "inside", "gap", "reversed"])
+        if fam == "gap":
+            sb, _ = place_with_gap(rng, sa, sb)
+        else:
+            sb["pos"] = [fr(t) + Fr(rng.randint(-6, 6), 8) for t in sa["pos"]]
+        if fam == "reversed":
+            sa, sb = sb, sa
+        inner_case(ctx, real, {"kind": "inner", "family": fam, "A": spec_json(sa), "B": spec_json(sb)}, found, lean_jobs)
+
+
+def inner_case(ctx, real, rep, found, lean_jobs, verbose=False):
+    sa, sb = spec_from_json(rep["A"]), spec_from_json(rep["B"])
+    SA, SB = exact_solid(sa), exact_solid(sb)
+    _, A = real.build(sa)
+    _, B = real.build(sb)
+    ctx.case(("inner", json.dumps(rep, sort_keys=True)))
+    E = real.rg.EmptyRegion
+    ans = bool(A.containsRegionInner(B, 0))
+    e1, e2 = isinstance(B.difference(A), E), isinstance(A.difference(B), E)
+    line = f"inner {b01(e1)} {b01(e2)}"
+    if verbose:
+        print("A.containsRegionInner(B) =", ans, " B-A empty:", e1, " A-B empty:", e2)
+
+    def after(outs, ans=ans, line=line):
+        if outs[0] != b01(ans):
+            ctx.broken("correspondence", "containsRegionInner model vs MeshVolumeRegion.containsRegionInner", f"{line}: lean={outs[0]} python={b01(ans)}")
+    lean_jobs.append(([line], after))
+    v = contain_verdict(SA, SB)
+    ctx.hist("oracle_inner", f"{rep.get('family')}:{v.kind}")
+    if v.kind != "UNDECIDED":
+        lean_jobs.append((v.certs, certificate_job(ctx, "inner " + v.kind)))
+        if ans != (v.kind == "YES"):
+            key = "containsRegionInner-wrong:" + ("says-out" if not ans else "says-in")
+            if report(ctx, key, f"MeshVolumeRegion.containsRegionInner = {ans} but the region is certainly "
+                                  f"{'inside' if v.kind == 'YES' else 'not inside'}", rep):
+                found.append(key)
+
+
 # =========================================================================== fixed scenarios (regressions of repaired defects)
 def build_scenario(real, name):
     """-> dict of the real answers of one fixed scenario (each was a defect of /repo, repaired by a `fix:` commit)"""
@@ -2025,6 +2280,11 @@ def run(ctx):
 
     fixed_scenarios(ctx, real, found, lean_jobs)
     touching_union_cases(ctx, real, found, lean_jobs)
+    t_ = time.time()
+    surface_cases(ctx, real, found, lean_jobs)
+    footslab_cases(ctx, real, found, lean_jobs)
+    inner_cases(ctx, real, found, lean_jobs)
+    timing["surface_footslab_inner_s"] = round(time.time() - t_, 1)
     n = ctx.budget(700, 14000)
     t0 = time.time()
     t_driver = 0.0
@@ -2146,6 +2406,12 @@ def replay(ctx, path):
         footprint_case(rc, real, rep, found, jobs, verbose=True)
     elif kind == "polyregion":
         polyregion_case(rc, real, rep, found, jobs, verbose=True)
+    elif kind == "surface":
+        surface_case(rc, real, rep, found, jobs, verbose=True)
+    elif kind == "footslab":
+        footslab_case(rc, real, rep, found, jobs, verbose=True)
+    elif kind == "inner":
+        inner_case(rc, real, rep, found, jobs, verbose=True)
     else:
         print(json.dumps(rep, indent=1)[:3000])
         return 0
